@@ -6,6 +6,7 @@ import (
 	"fmt"
 	"go/types"
 	"math/big"
+	"os"
 	"regexp"
 	"strings"
 
@@ -129,6 +130,29 @@ func (e *Exec) zzCall(fn *ssa.Function, args []Value) Value {
 		}
 		e.nondet = append(e.nondet, NondetRec{Kind: "param", Sym: nm, Val: fmt.Sprint(v)})
 		return cbv(uint64(v), 64)
+	case "And":
+		return band(args[0].(*BoolV), args[1].(*BoolV))
+	case "Or":
+		return bor(args[0].(*BoolV), args[1].(*BoolV))
+	case "Implies":
+		return bor(bnot(args[0].(*BoolV)), args[1].(*BoolV))
+	case "Iff":
+		return beq(args[0].(*BoolV), args[1].(*BoolV))
+	case "RegexpOver":
+		sl := args[0].(*SliceV)
+		n, _ := concInt(sl.Len)
+		e.nfresh++
+		sr := &symRegexp{id: fmt.Sprintf("nd!%d", e.nfresh)}
+		for i := 0; i < int(n); i++ {
+			c, ok := concStr(e.sliceElem(sl, i))
+			if !ok {
+				e.unsupported("zz.RegexpOver with symbolic candidate")
+			}
+			sr.cands = append(sr.cands, c)
+			e.declareInput(fmt.Sprintf("%s_m%d", sr.id, i), "Bool")
+		}
+		e.recNondet("regexp", sr.id, int(n))
+		return &PtrV{O: e.newObj(&OpaqueV{N: sr}, "regexp:arbitrary")}
 	case "ParamStr":
 		nm, _ := concStr(args[0])
 		def, _ := concStr(args[1])
@@ -185,6 +209,11 @@ func (e *Exec) zzCall(fn *ssa.Function, args []Value) Value {
 		e.monitorOn = false
 		return nil
 	case "WriteCount":
+		if os.Getenv("SYMGO_DEBUGWRITES") != "" {
+			for _, w := range e.writes {
+				fmt.Fprintf(os.Stderr, "write: %s at %s in %s\n", w.Tag, w.Site, w.Fn)
+			}
+		}
 		return cbv(uint64(len(e.writes)), 64)
 	case "Note":
 		k, _ := concStr(args[0])
